@@ -30,6 +30,9 @@ ASSUMPTIONS = [
 
 SOLVE_PUB = "xitorch/linalg/solve.py"
 SOLVE_IMPL = "xitorch/_impls/linalg/solve.py"
+# iterative solvers behind the dispatch table (confirmed by reading); others are discovered by idiom
+FROZEN_LOOPS = (SOLVE_IMPL + "::cg", SOLVE_IMPL + "::bicgstab", SOLVE_IMPL + "::gmres",
+                "xitorch/_impls/optimize/root/rootsolver.py::_nonlin_solver")
 
 
 def _solver_targets(model: Model) -> Tuple[List[FuncInfo], Dict[str, FuncInfo]]:
@@ -64,14 +67,12 @@ def rules(model: Model, tier: str) -> List[RuleResult]:
         if f.module.relpath.startswith("xitorch/_tests"):
             continue
         has_loop = any(isinstance(n, (ast.For, ast.While)) for n in own_nodes(f.node))
-        if has_loop and find_warn_flag(f.node) is not None:
+        if has_loop and (find_warn_flag(f.node) is not None or f.fq in FROZEN_LOOPS):
             loop_targets.append(f)
     names = sorted(f.fq for f in loop_targets)
-    for need in (SOLVE_IMPL + "::cg", SOLVE_IMPL + "::bicgstab", SOLVE_IMPL + "::gmres",
-                 "xitorch/_impls/optimize/root/rootsolver.py::_nonlin_solver"):
+    for need in FROZEN_LOOPS:
         if need not in names:
-            raise AnchorError("solver loop %s is no longer reachable from the solve dispatch table "
-                              "or lost its flag-guarded ConvergenceWarning" % need)
+            raise AnchorError("solver loop %s is no longer reachable from the solve dispatch table" % need)
     for f in sorted(loop_targets, key=lambda f: f.fq):
         check_warn_or_converged(f, W, W2, P)
 
@@ -112,10 +113,11 @@ def _check_external_status(model: Model, reach, Wp: RuleResult):
                     blk = _block_of(s)
                     idx = blk.index(s)
                     for t in blk[idx + 1:]:
-                        if isinstance(t, ast.If) and info in names_loaded(t.test) and any(is_warn_call(b) for b in t.body):
-                            cmp = [c for c in ast.walk(t.test) if isinstance(c, ast.Compare)]
-                            if cmp and isinstance(cmp[0].ops[0], (ast.Gt, ast.NotEq, ast.GtE)):
-                                ok = True
+                        if isinstance(t, ast.If) and isinstance(t.test, ast.Compare) and len(t.test.ops) == 1 \
+                                and isinstance(t.test.left, ast.Name) and t.test.left.id == info \
+                                and isinstance(t.test.comparators[0], ast.Constant) and t.test.comparators[0].value == 0 \
+                                and isinstance(t.test.ops[0], (ast.Gt, ast.NotEq)) and any(is_warn_call(b) for b in t.body):
+                            ok = True
                         if isinstance(t, (ast.Assign,)) and info in {x.id for x in ast.walk(t.targets[0]) if isinstance(x, ast.Name)}:
                             break
                     if ok:
@@ -168,7 +170,8 @@ def _check_threshold_and_protocol(model: Model, f: FuncInfo, call: ast.Call, T: 
     # ---- T: find the comparison that sets the flag
     found = find_warn_flag(f.node)
     if found is None:
-        raise AnalysisError("%s: no warning flag" % f.fq)
+        T.note("%s: no flag-guarded warning; threshold provenance not evaluated (C01-W reports it)" % f.fq)
+        return
     flag, _ = found
     comps = []
     for n in own_nodes(f.node):
